@@ -95,6 +95,17 @@ def gen(seed, tier):
             payloads.append({"id": pid, "flavour": rng.choice(["asyncio", "asyncio", "trio"]), "via": "adopt", "steps": [["hb", 0.05, None]], "cleanup_sync": rng.choice([0, 1, 2]), "late": True})
             lscript += [["sleep", rng.choice([0.0, 0.0, 0.001, 0.01, 0.05, 0.1, 0.2])], ["adopt", pid]]
         drivers.append({"id": "dl", "script": lscript})
+    if rng.random() < 0.3:
+        # execute() calls racing with the termination: another thread keeps executing coroutine payloads
+        # from the moment the trigger fires until after the run call has ended.  Refusing them is fine;
+        # one that does get started is a coroutine payload like any other
+        marker = {"sigint": "sigint-sent", "stop": "stop-call", "shutdown": "shutdown-call"}.get(trig, "start:trig")
+        xscript = [["wait-marker", marker]]
+        for i in range(rng.randint(2, 5)):
+            pid = "latex%d" % i
+            payloads.append({"id": pid, "flavour": rng.choice(["asyncio", "asyncio", "trio"]), "via": "execute", "steps": rng.choice([[["hb", 0.05, None]], [["sleep", 0.3], ["return", "none"]]]), "cleanup_sync": rng.choice([0, 1, 2]), "late": True})
+            xscript += [["sleep", rng.choice([0.0, 0.001, 0.01, 0.1, 0.3, 0.6, 1.0, 1.5])], ["execute", pid]]
+        drivers.append({"id": "dx", "script": xscript})
         if rng.random() < 0.6:
             # targeted alignment (DESIGN 3.5): a submitting thread is descheduled inside the registration path
             # right after the trigger and resumes only when the runtime's main coroutine winds down, so that its
